@@ -164,6 +164,10 @@ def judge_builtin(ctx, b, line, label):
     need("class3", core.hx("".join(sorted(DOC_CLASSES[1] + DOC_CLASSES[2]))), "Letters")
     need("class15", core.hx("".join(sorted(DOC_CLASSES[1] + DOC_CLASSES[2] + DOC_CLASSES[4] + DOC_CLASSES[8]))), "All")
     need("class0", "-", "None")
+    everything = set(DOC_CLASSES[1] + DOC_CLASSES[2] + DOC_CLASSES[4] + DOC_CLASSES[8])
+    for f in (1, 2, 4, 8, 16):
+        need("allminus%d" % f, core.hx("".join(sorted(everything - set(DOC_CLASSES[f])))), "Alphabet() of {Allow: All, Exclude: class %d}" % f)
+    need("newcharalphabet", core.hx("".join(sorted(everything - set(DOC_CLASSES[16])))), "Alphabet() of NewCharRecipe(n): everything minus the ambiguous characters")
     need("flags", "1,2,4,8,16,3,15,0", "the class constants Uppers, Lowers, Digits, Symbols, Ambiguous, Letters, All, None")
     need("newchar", "17,15,0,16,-,0,-", "NewCharRecipe defaults (Length, Allow, Require, Exclude, AllowChars, #RequireSets, ExcludeChars)")
     need("newwl", "5,%s,-,true,2" % core.hx("none"), "NewWLRecipe defaults (Length, Capitalize, SeparatorChar, SeparatorFunc nil, Size)")
